@@ -6,7 +6,7 @@ use crate::util::*;
 use proptest::prelude::*;
 use serde::{Deserialize, Serialize};
 use serde_json::json;
-use text2num::{replace_numbers_in_text, text2digits};
+use text2num::{replace_numbers_in_text, text2digits, LangInterpreter};
 
 #[derive(Clone, Debug, Hash, Serialize, Deserialize)]
 pub struct Case {
@@ -105,6 +105,33 @@ impl Property for C17 {
         let want = splice(&t2, &o2);
         if out != want {
             return Err(format!("[{}] rewrite of {:?} = {:?}, expected {:?} (whitespace outside rewritten spans is passed through)", c.lang, w, out, want));
+        }
+        // the language's annotation pass on a caller-built token vector in which every whitespace character
+        // is its own token (the amount of whitespace = the number of blank tokens): the flags of the
+        // non-blank tokens must be those of the tokenizer's own token list
+        {
+            let mut split: Vec<Tk> = vec![];
+            let mut owner: Vec<usize> = vec![];
+            for (i, tok) in t2.iter().enumerate() {
+                if is_ws(&tok.text) && tok.text.chars().count() > 1 {
+                    for ch in tok.text.chars() {
+                        split.push(Tk::new(split.len(), &ch.to_string()));
+                        owner.push(i);
+                    }
+                } else {
+                    split.push(Tk::new(split.len(), &tok.text));
+                    owner.push(i);
+                }
+            }
+            if split.len() != t2.len() {
+                lg.basic_annotate(&mut split);
+                for (k, tk) in split.iter().enumerate() {
+                    if !is_ws(&tk.text) && tk.nan != t2[owner[k]].nan {
+                        return Err(format!("[{}] annotation of {:?} depends on how the whitespace is split into tokens: token {:?} is flagged {} with one blank token per character, {} with one token per run", c.lang, w, tk.text, tk.nan, t2[owner[k]].nan));
+                    }
+                }
+                obs.label("annotation-on-char-level-blank-tokens");
+            }
         }
         let non_ascii = c.runs.iter().chain([&c.lead, &c.trail]).any(|r| !r.is_ascii());
         let has_o = c.lang == "en" && t1.iter().any(|x| x.lowercase == "o");
